@@ -194,7 +194,7 @@ PLANS["C13"] = {
 
 def _rmc(fmt, cells, rows, cols, aligns, decors, hdr, html="{}", writer=False):
     return dict(Fmt=fmt, CellNames=Raw(cells), MaxCols=cols, MaxRows=rows, AlignVals=Raw(aligns), DecorNames=Raw(decors),
-                HdrChoices=Raw(hdr), HtmlChoices=Raw(html), CheckWriter=writer)
+                HdrChoices=Raw(hdr), HtmlChoices=Raw(html), CheckWriter=writer, JsonVariant="repaired")
 
 
 def _textmc(cells, rows, cols, aligns, decors, hdr):
